@@ -401,7 +401,6 @@ theorem child_pend (f : Nat)
     | excluded => exact absurd rfl hexcl
     | nofuel => exact absurd rfl (hok .nofuel)
     | err => exact absurd rfl (hok .err)
-    | diverge => exact absurd rfl (hok .diverge)
     | cycle =>
       by_cases hthrow : o.throwCycle = true
       · simp only [childOf, hthrow, if_true] at hok
@@ -411,12 +410,10 @@ theorem child_pend (f : Nat)
         rw [hr] at hσ
         simp only at hσ
         subst hσ
-        cases hc : cycleSch o e with
-        | none =>
-          simp only [childOf, ht', hc, Bool.false_eq_true, if_false] at hok
-          exact absurd rfl (hok .diverge)
-        | some s0 =>
-          simp only [childOf, ht', hc, Bool.false_eq_true, if_false, note] at ha ⊢
+        by_cases hrec : spineRecs e = true
+        · simp only [childOf, ht', hrec, Bool.false_eq_true, if_false, if_true, note]
+          exact ⟨hp, fun e he => he⟩
+        · simp only [childOf, ht', hrec, Bool.false_eq_true, if_false, note] at ha ⊢
           have hsp : spineNamed e = true := by
             simp only [addComp] at ha
             cases hs : spineNamed e with
@@ -506,7 +503,7 @@ theorem gen_pend : ∀ (f : Nat),
                 rcases h3 with h3 | h3
                 · exact h3
                 · exact absurd (GoType.beq_eq _ _ h3) h4
-            | cycle | nofuel | excluded | err | diverge => simp [finish] at hs
+            | cycle | nofuel | excluded | err => simp [finish] at hs
       · -- genBody
         intro ps top nm nl b B0 σ ha hch hl hel hk hp s hs
         cases b with
@@ -655,7 +652,6 @@ theorem gen_pend : ∀ (f : Nat),
             | ok s0 => simp only [childOf]; exact setProp_ne_nil _ _ _
             | nofuel => exact absurd rfl (hok .nofuel)
             | err => exact absurd rfl (hok .err)
-            | diverge => exact absurd rfl (hok .diverge)
             | cycle =>
               generalize hcq : childOf o c.ty (R.cycle, σ') = q at hok ⊢
               obtain ⟨ch, σ''⟩ := q
@@ -689,5 +685,105 @@ theorem default_no_dangling (Δ : Decls) (o : Opts) (d : Dflt o) (fuel : Nat) (t
     | nil => rw [hc] at this; cases this
     | cons x r => simp
   · simp [inParents] at h1
+
+/-! ### under the default option set every stored entry is keyed by the Go name of its own type -/
+def Shape (σ : St) : Prop := ∀ e, e ∈ σ.refs → e.1 = e.2.1
+
+theorem childOf_refs (o : Opts) (e : GoType) (p : R × St) : (childOf o e p).2.refs = p.2.refs := by
+  obtain ⟨r, σ⟩ := p
+  cases r <;> simp only [childOf]
+  split
+  · rfl
+  · split <;> simp [note, addComp]
+theorem finish_refs (t : GoType) (p : R × St) : (finish t p).2.refs = p.2.refs := by
+  obtain ⟨r, σ⟩ := p
+  cases r <;> rfl
+
+theorem structEnd_shape {o : Opts} (d : Dflt o) (top : Bool) (nm : String) (nl : Bool) (n : String) (a : FAcc)
+    (h : Shape a.σ) : Shape (structEnd o top nm nl n a).2 := by
+  cases hf : a.fail with
+  | some x => simp only [structEnd, hf]; exact h
+  | none =>
+    rw [structEnd_dflt d _ _ _ _ _ hf]
+    intro e he
+    rcases List.mem_cons.mp he with rfl | he
+    · rfl
+    · exact h e he
+
+theorem gen_shape (Δ : Decls) (o : Opts) (d : Dflt o) : ∀ (f : Nat),
+    (∀ ps nm t σ, Shape σ → Shape (genRef Δ o f ps nm t σ).2) ∧
+    (∀ ps top nm nl b σ, Shape σ → Shape (genBody Δ o f ps top nm nl b σ).2) ∧
+    (∀ ps cs a, Shape a.σ → Shape (genFields Δ o f ps cs a).σ)
+  | 0 => by
+      refine ⟨fun _ _ _ σ h => by simpa [genRef] using h, fun _ _ _ _ _ σ h => by simpa [genBody] using h, ?_⟩
+      intro ps cs a h
+      cases cs <;> simpa [genFields] using h
+  | f + 1 => by
+      obtain ⟨ihR, ihB, ihF⟩ := gen_shape Δ o d f
+      have hchild : ∀ ps nm e σ, Shape σ → Shape (childOf o e (genRef Δ o f ps nm e σ)).2 := by
+        intro ps nm e σ h x hx
+        rw [childOf_refs] at hx
+        exact ihR ps nm e σ h x hx
+      refine ⟨?_, ?_, ?_⟩
+      · intro ps nm t σ h
+        simp only [genRef]
+        split
+        · exact h
+        · split
+          · exact h
+          · intro x hx
+            rw [finish_refs] at hx
+            exact ihB _ _ _ _ _ σ h x hx
+      · intro ps top nm nl b σ h
+        cases b with
+        | bool | int _ | float _ | string | bytes | time | array _ _ => simp only [genBody, custom_dflt d]; exact h
+        | ptr _ => simp only [genBody]; exact h
+        | defd n t => simp only [genBody]; split <;> first | exact ihB _ _ _ _ _ σ h | exact h
+        | slice e =>
+          simp only [genBody, custom_dflt d]
+          split
+          · exact h
+          · rw [sliceOf_snd]; exact hchild _ _ _ _ h
+        | map e => simp only [genBody, custom_dflt d]; rw [mapOf_snd]; exact hchild _ _ _ _ h
+        | recs m =>
+          simp only [genBody, custom_dflt d]
+          cases m
+          · simp only [Bool.false_eq_true, if_false]; rw [sliceOf_snd]; exact hchild _ _ _ _ h
+          · simp only [if_true]; rw [mapOf_snd]; exact hchild _ _ _ _ h
+        | struct fs =>
+          simp only [genBody, d.exp, Bool.false_and, Bool.false_eq_true, if_false]
+          exact structEnd_shape d _ _ _ _ _ (ihF _ _ { props := [], σ := σ } h)
+        | named n =>
+          simp only [genBody, d.exp, Bool.false_and, Bool.false_eq_true, if_false]
+          exact structEnd_shape d _ _ _ _ _ (ihF _ _ { props := [], σ := σ } h)
+      · intro ps cs a h
+        cases cs with
+        | nil => simp only [genFields]; exact h
+        | cons c cs =>
+          simp only [genFields]
+          apply ihF
+          rw [stepField_σ]
+          exact hchild _ _ _ _ h
+
+/-- under the default option set, when no component is named "" (the name every anonymous struct is stored under),
+    `WrongComponent` is the ghost flag alone -/
+theorem default_wrong_iff_anon (Δ : Decls) (o : Opts) (d : Dflt o) (fuel : Nat) (t : GoType) (σ : St) (r : R)
+    (hg : genRoot Δ o fuel t = (r, σ)) (he : "" ∉ σ.comps) : wrongCandB o σ = σ.anon := by
+  have hs : Shape σ := by
+    have := (gen_shape Δ o d fuel).1 [] "_root" t {} (by intro e he; cases he)
+    unfold genRoot at hg; rw [hg] at this; exact this
+  unfold wrongCandB
+  have : (σ.refs.any fun p => σ.comps.contains p.1 && hasProps p.2.2 && (p.2.1 == "" || typeName o p.2.1 != p.1)) = false := by
+    rw [List.any_eq_false]
+    intro e hmem
+    have h1 := hs e hmem
+    simp only [typeName_dflt d, Bool.and_eq_true, Bool.or_eq_true, not_and]
+    intro ⟨hc, _⟩ hor
+    rcases hor with h2 | h2
+    · have : e.1 = "" := by rw [h1]; simpa using h2
+      rw [this] at hc
+      exact he (by simpa using hc)
+    · simp [h1] at h2
+  rw [this]; simp
 
 end KinModel.Gen3
